@@ -1,5 +1,5 @@
 import SqlModel.Control
-import SqlModel.Generated.ControlIR
+import SqlModel.Generated.ControlCodec
 /-!
 # C19 — all input forms and front ends give the same result
 
